@@ -369,6 +369,39 @@ theorem renderList_perm (c1 c2 : Ctx) (verts : List (Vec4 K × List K)) {tris1 t
   · exact (depthSorted_perm _ _).trans hc
   · exact ((depthSorted_perm _ _).trans hc).trans (depthSorted_perm _ _).symm
 
+/-- `render` is the draw loop over `renderList`, all of whose scanlines lie inside the target (C02's clip and
+viewport invariants): the bridge from the per-pixel theorems about `drawTris` to whole `render` calls. -/
+theorem render_eq_drawTris (Q : Vec4 K → Prop) (hQ : ClipInv Q) (c : Ctx) (shade : List K → Option C)
+    (L R T B W H k : Nat) (hLR : L ≤ R) (hTB : T ≤ B) (hRW : R ≤ W) (hBH : B ≤ H)
+    (tris : List (Nat × Nat × Nat)) (verts : List (Vec4 K × List K))
+    (hidx : ∀ t ∈ tris, t.1 < verts.length ∧ t.2.1 < verts.length ∧ t.2.2 < verts.length)
+    (hverts : ∀ v ∈ verts, Q v.1 ∧ v.2.length = k) (t : Target K C) :
+    render c shade (viewportMat L R T B) tris verts t =
+      drawTris c shade (viewportMat L R T B) t { calls := 1, primsI := tris.length, vertsI := verts.length }
+        (renderList c verts tris) ∧ TrisInRect (viewportMat L R T B) W H (renderList c verts tris) := by
+  have hlen : (verts.map fun (p, a) => mkVert p a).length = verts.length := List.length_map _
+  have hcv : ∀ v ∈ verts.map (fun (p, a) => mkVert p a), WF v ∧ Q v.pos ∧ v.attr.length = k := by
+    intro v hv
+    obtain ⟨pa, hpa, rfl⟩ := List.mem_map.mp hv
+    obtain ⟨q1, q2⟩ := hverts pa hpa
+    exact ⟨Retro.Lemmas.Clip.mkVert_wf _ _, q1, q2⟩
+  constructor
+  · unfold render renderList
+    simp only
+    rw [lookupTris_eq _ _ (by rw [hlen]; exact hidx)]
+    rfl
+  · have hclip := clipped_inRect Q hQ L R T B W H k hLR hTB hRW hBH
+      (tris.filterMap (mkTri (verts.map fun (p, a) => mkVert p a)))
+      (by
+        intro tri htri v hv
+        obtain ⟨ijk, _, hmk⟩ := List.mem_filterMap.mp htri
+        exact hcv v (mkTri_mem _ ijk tri hmk v hv))
+    unfold renderList
+    simp only
+    cases c.depthSort with
+    | none => exact hclip
+    | some d => exact trisInRect_perm _ W H (depthSorted_perm d _).symm hclip
+
 /-- **C06 for whole `render` calls (z-buffer configuration).** Same vertices, same target, the library's
 viewport matrix, clip-space positions satisfying a clip-invariant relation (`perspInv`, `affineInv`),
 attribute tuples of one length. Two calls whose index triples are permutations of each other, under
